@@ -185,7 +185,16 @@ impl Sink {
     pub fn build(&mut self, spec: &BuildSpec) -> Outcome {
         let o = run_build(spec);
         let id = self.id();
-        let ev = build_event(id, spec, &o);
+        let mut ev = build_event(id, spec, &o);
+        // an automatic-mode build that did not return: does the same input build with each mode forced?
+        // (lets the specification tell a wrong mode choice from any other crash)
+        if spec.mode.is_none() && matches!(o, Outcome::Panic(_) | Outcome::Timeout) {
+            let kinds: Vec<&str> = (0..3).map(|m| {
+                let mut s = spec.clone(); s.mode = Some(m);
+                match run_build(&s) { Outcome::Ok(_) => "Ok", Outcome::Err(e) => e, Outcome::Panic(_) => "Panic", Outcome::Timeout => "Timeout" }
+            }).collect();
+            ev["forced_kinds"] = json!(kinds);
+        }
         self.emit(&ev);
         o
     }
